@@ -271,7 +271,9 @@ func (h *c14) runWriter(geom string, index, offset, length uint32, body []byte, 
 				n, err := io.Copy(wr, &splitReader{data: body[pos:e], errAt: -1, eofWithData: zero})
 				accepted += n
 				pos = e
-				if err != nil {
+				// (the writer's ReadFrom reports a source's io.EOF as its error;
+				// its callers ignore that, and so does the harness)
+				if err != nil && err != io.EOF {
 					break
 				}
 			}
@@ -335,6 +337,27 @@ func (h *c14) runWriter(geom string, index, offset, length uint32, body []byte, 
 		in := uint32(c) >= offset/wchunk && uint32(c) < offset/wchunk+nblocks
 		if !in && before.Get(c) != after.Get(c) {
 			h.viol("C14/writer-touches-outside-range", "block %d of the piece changed although it is outside the range %s", c, where)
+		}
+	}
+	// what was delivered in full, without an error, landed: every block that the
+	// delivered bytes cover completely is in the store
+	// (streams that contain empty reads are left out: the writer treats a read of
+	// zero bytes as the end of the stream, which loses nothing but the rest of the fetch)
+	if errAt < 0 && offset%wchunk == 0 && (mode == "multi" || !zero) {
+		deliv := uint32(len(body))
+		if deliv > length {
+			deliv = length
+		}
+		for c := offset / wchunk; c < offset/wchunk+nblocks; c++ {
+			bs := c * wchunk
+			be := bs + wchunk
+			if be > g.pieceLen(index) {
+				be = g.pieceLen(index)
+			}
+			if be <= offset+deliv && !after.Get(int(c)) {
+				h.viol("C14/writer-drops-delivered-data", "block %d of the piece was delivered completely and without error but is not in the store %s", c, where)
+				break
+			}
 		}
 	}
 	// whatever was stored is true content: complete the piece with true data and hash it
@@ -613,6 +636,7 @@ func (h *c14) multiFile(t *testing.T, mode string, chunk int, eofData bool) {
 		tor.webseeds = []webseed.Webseed{ws}
 		ctx := context.Background()
 		where := fmt.Sprintf("[multi-file layout a:100 .pad/1:16284(padding) d/b:40000 c:9152, server %s, body chunking %d]", mode, chunk)
+		firstRound := map[uint32]int{}
 		for piece := uint32(0); piece < 2; piece++ {
 			for round := 0; round < 3; round++ {
 				maybeWebseed(ctx, tor, piece, false)
@@ -631,6 +655,10 @@ func (h *c14) multiFile(t *testing.T, mode string, chunk int, eofData bool) {
 					default:
 					}
 					break
+				}
+				if round == 0 {
+					_, bm := tor.Pieces.PieceBitmap(piece)
+					firstRound[piece] = bm.Count()
 				}
 				for c, v := range tor.inFlight {
 					if v != 0 {
@@ -665,6 +693,9 @@ func (h *c14) multiFile(t *testing.T, mode string, chunk int, eofData bool) {
 			tor.Pieces.AddData(piece, 0, append([]byte{}, truth[s:s+32768]...), ^uint32(0))
 			if done, _, err := tor.Pieces.Finalise(piece, tor.PieceHashes[piece]); !done && mode != "body-garbage" {
 				h.viol("C14/multifile-stored-wrong-bytes", "piece %d: after completing it with true data its hash does not match: the fetch stored wrong or misplaced bytes (%v; %d blocks had been stored) %s", piece, err, stored, where)
+			}
+			if mode == "honoured" && firstRound[piece] != 2 {
+				h.viol("C14/multifile-drops-delivered-data", "an honest server delivered the whole of piece %d in the first fetch, %d of 2 blocks were stored by it %s", piece, firstRound[piece], where)
 			}
 			if mode == "honoured" && stored != 2 {
 				h.viol("C14/multifile-incomplete", "an honest server was asked for piece %d three times and only %d of 2 blocks were stored %s", piece, stored, where)
